@@ -403,6 +403,7 @@ static void cmd_prefixes(char* t) {
     snprintf(path, sizeof path, "%s/pfx-%d.parquet", dir, (int)getpid());
     snprintf(errpath, sizeof errpath, "%s/pfx-%d.err", dir, (int)getpid());
     size_t next = 0;
+    int percut = 0;
     fflush(stdout);
     while (next < nres) {
         pid_t pid = fork();
@@ -421,12 +422,19 @@ static void cmd_prefixes(char* t) {
                     close(fd); curcut = cut;
                 }
                 open_one(file, (size_t)cut, mode, path, &res[i]);
-                if (mode == 2 || i + 1 == stop) { if (VH_LEAKCHECK()) res[i].leak = 1; }
+                /* LeakSanitizer stops the world through ptrace: once per batch; a batch that leaked
+                 * is repeated with a check after every cut to attribute the leak */
+                if (i + 1 == stop || (percut && mode == 2)) { if (VH_LEAKCHECK()) res[i].leak = 1; }
             }
             _exit(0);
         }
         int status = 0; waitpid(pid, &status, 0);
         size_t stop = next + (size_t)batch * 3; if (stop > nres) stop = nres;
+        if (!percut && WIFEXITED(status) && WEXITSTATUS(status) == 0 && res[stop - 1].leak && stop - next > 3) {
+            for (size_t j = next; j < stop; j++) memset(&res[j], 0, sizeof res[j]);
+            percut = 1; continue;                       /* same batch again, leak check per cut */
+        }
+        percut = 0;
         size_t i = next;
         while (i < stop && (res[i].state == P_REJECTED || res[i].state == P_OPENED)) i++;
         if (i < stop) {
